@@ -62,6 +62,39 @@ impl Bounds {
     pub const STAR: Bounds = Bounds::new(0, None);
 }
 
+/// One link of an `IterChain`: an iterable parser used as such (not collected on its own).
+#[derive(Clone, Debug, PartialEq, Eq, Hash, PartialOrd, Ord)]
+pub enum Part {
+    /// `item.repeated()` with bounds
+    Rep(Box<G>, Bounds),
+    /// `item.separated_by(sep)` with bounds, allow_leading, allow_trailing
+    Sep(Box<G>, Box<G>, Bounds, bool, bool),
+    /// `a.or_not()` used through its `IterParser` impl: yields zero or one item
+    Opt(Box<G>),
+    /// `a.map(items_of).into_iter()`
+    Iter(Box<G>),
+}
+
+impl Part {
+    pub fn children(&self) -> Vec<&G> {
+        match self {
+            Part::Rep(a, _) | Part::Opt(a) | Part::Iter(a) => vec![a],
+            Part::Sep(a, s, ..) => vec![a, s],
+        }
+    }
+    pub fn map(&self, f: &mut dyn FnMut(&G) -> G) -> Part {
+        match self {
+            Part::Rep(a, x) => Part::Rep(Box::new(f(a)), *x),
+            Part::Opt(a) => Part::Opt(Box::new(f(a))),
+            Part::Iter(a) => Part::Iter(Box::new(f(a))),
+            Part::Sep(a, s, x, l, t) => {
+                let a = Box::new(f(a));
+                Part::Sep(a, Box::new(f(s)), *x, *l, *t)
+            }
+        }
+    }
+}
+
 #[derive(Clone, Debug, PartialEq, Eq, Hash, PartialOrd, Ord)]
 pub enum G {
     // ---- leaves -------------------------------------------------------------------------
@@ -176,6 +209,9 @@ pub enum G {
     RepCtxPre(Box<G>, Bounds, u8),
     /// `g.map(items_of).into_iter().<sink>`: a parser whose output is iterated (`Parser::into_iter`)
     IntoIter(Box<G>, Sink),
+    /// iterable parsers chained with `IterParser for Then` (`p1.then(p2)`, items of p1 followed by the items of
+    /// p2; a single link = that iterable used directly), then a sink.  One or two links.
+    IterChain(Vec<Part>, Sink),
 }
 
 pub use G::*;
@@ -208,6 +244,11 @@ impl G {
             Choice(_, v) | Group(_, v) => v.iter().collect(),
             SepBy(a, s, _, _, _, k) => {
                 let mut v = vec![&**a, &**s];
+                v.extend(k.child());
+                v
+            }
+            IterChain(ps, k) => {
+                let mut v: Vec<&G> = ps.iter().flat_map(|p| p.children()).collect();
                 v.extend(k.child());
                 v
             }
@@ -313,6 +354,14 @@ pub fn nullable(g: &G) -> bool {
         }
         RepCtx(_) | RepCtxMax(_) | TryRepCtx(_) | RepCtxPre(..) => true,
         IntoIter(a, sink) => nullable(a) && sink.child().map(nullable).unwrap_or(true),
+        // conservative: every link may yield nothing without consuming
+        IterChain(ps, sink) => {
+            ps.iter().all(|p| match p {
+                Part::Rep(a, bd) | Part::Sep(a, _, bd, _, _) => bd.min == 0 || nullable(a),
+                Part::Opt(_) => true,
+                Part::Iter(a) => nullable(a),
+            }) && sink.child().map(nullable).unwrap_or(true)
+        }
         SepBy(a, _, bd, _, _, sink) => {
             let me = bd.min == 0 || nullable(a);
             match sink {
@@ -418,6 +467,9 @@ pub fn items_of(v: Val) -> Vec<Val> {
         Val::L(v) => v,
         // the probes the harness wraps around every node's value are looked through
         Val::S(_, _, inner) | Val::Q(_, _, inner) | Val::Cx(_, inner) => items_of(*inner),
+        // an optional value iterates as zero or one item (like `Option`)
+        Val::O(None) => vec![],
+        Val::O(Some(v)) => vec![*v],
         o => vec![o],
     }
 }
@@ -601,6 +653,31 @@ impl fmt::Display for G {
                 write!(f, "into_iter[")?;
                 sink(f, k)?;
                 write!(f, "]({})", a)
+            }
+            IterChain(ps, k) => {
+                write!(f, "iter_chain[")?;
+                sink(f, k)?;
+                write!(f, "](")?;
+                for (i, p) in ps.iter().enumerate() {
+                    if i > 0 {
+                        write!(f, ",")?;
+                    }
+                    match p {
+                        Part::Rep(a, x) => {
+                            write!(f, "repeated[")?;
+                            bd(f, x)?;
+                            write!(f, ";bare]({})", a)?;
+                        }
+                        Part::Sep(a, s, x, l, t) => {
+                            write!(f, "separated_by[")?;
+                            bd(f, x)?;
+                            write!(f, ";{}{};bare]({},{})", if *l { "L" } else { "-" }, if *t { "T" } else { "-" }, a, s)?;
+                        }
+                        Part::Opt(a) => write!(f, "or_not({})", a)?,
+                        Part::Iter(a) => write!(f, "into_iter[bare]({})", a)?,
+                    }
+                }
+                write!(f, ")")
             }
         }
     }
@@ -892,6 +969,22 @@ impl<'a> P<'a> {
                 let s = self.sink()?;
                 self.eat(']')?;
                 IntoIter(un(self)?, s)
+            }
+            "iter_chain" => {
+                self.eat('[')?;
+                let s = self.sink()?;
+                self.eat(']')?;
+                let mut ps = vec![];
+                for g in self.args()? {
+                    ps.push(match g {
+                        Rep(a, x, Sink::Bare) => Part::Rep(a, x),
+                        SepBy(a, c, x, l, t, Sink::Bare) => Part::Sep(a, c, x, l, t),
+                        OrNot(a) => Part::Opt(a),
+                        IntoIter(a, Sink::Bare) => Part::Iter(a),
+                        o => return Err(format!("not an iterable link: {o}")),
+                    });
+                }
+                IterChain(ps, s)
             }
             "repeated" => {
                 self.eat('[')?;
